@@ -66,6 +66,7 @@ async fn autopilot(shared: Arc<Mutex<Shared>>, mode: PayMode) {
             let method = s.pending[i].method.clone();
             let reply: Option<Value> = match method.as_str() {
                 "datastore" => Some(s.node.datastore_write(&s.pending[i].params.clone()).0),
+                "deldatastore" => Some(s.node.datastore_delete(&s.pending[i].params.clone()).0),
                 "listdatastore" => Some(s.node.listdatastore(&s.pending[i].params)),
                 "listsendpays" => Some(s.node.listsendpays(&s.pending[i].params)),
                 "waitsendpay" => Some(s.node.waitsendpay(&s.pending[i].params).unwrap_or_else(|| rpc_error(200, "timed out"))),
@@ -137,6 +138,13 @@ impl Proc {
         cmd.current_dir(&dir).stdin(std::process::Stdio::piped()).stdout(std::process::Stdio::piped()).stderr(std::process::Stdio::piped()).kill_on_drop(true);
         cmd.env_remove("RUST_LOG");
         cmd.env("RUST_BACKTRACE", "0");
+        // a check killed by the watchdog must not leave (possibly deadlocked) plugin processes behind
+        unsafe {
+            cmd.pre_exec(|| {
+                libc::prctl(libc::PR_SET_PDEATHSIG, libc::SIGKILL);
+                Ok(())
+            });
+        }
         match log_level {
             Some(l) => {
                 cmd.env("CLN_PLUGIN_LOG", l);
@@ -268,6 +276,11 @@ impl Proc {
     /// non-getinfo RPC requests seen by the node
     pub fn rpcs(&self) -> Vec<(String, Value)> {
         self.shared.lock().unwrap().log.iter().filter_map(|r| if let Ev::RpcArrive { method, params, .. } = &r.ev { Some((method.clone(), params.clone())) } else { None }).collect()
+    }
+
+    /// getinfo requests that reached the simulated node (they are answered automatically and logged as HeightTold)
+    pub fn getinfo_count(&self) -> usize {
+        self.shared.lock().unwrap().log.iter().filter(|r| matches!(&r.ev, Ev::HeightTold { via, .. } if *via == "getinfo")).count()
     }
 
     pub fn panicked(&self) -> Option<String> {
@@ -585,10 +598,13 @@ pub struct HeightCase {
     /// lightningd answers getinfo only after this many ms (startup must wait for it)
     #[serde(default)]
     pub getinfo_delay_ms: u64,
+    /// after `blocks`: this many consecutive block_added notifications (the node catching up) in ONE write
+    #[serde(default)]
+    pub burst: u16,
 }
 
 fn height_case() -> impl Strategy<Value = HeightCase> {
-    (100u32..5000, proptest::collection::vec(0u32..6000, 0..6), 40u32..3000, prop_oneof![Just(0u64), Just(250u64)]).prop_map(|(start, blocks, expiry_above, getinfo_delay_ms)| HeightCase { start, blocks, expiry_above, getinfo_delay_ms })
+    (100u32..5000, proptest::collection::vec(0u32..6000, 0..6), 40u32..3000, prop_oneof![Just(0u64), Just(250u64)], prop_oneof![2 => Just(0u16), 1 => 2u16..40, 2 => 40u16..300]).prop_map(|(start, blocks, expiry_above, getinfo_delay_ms, burst)| HeightCase { start, blocks, expiry_above, getinfo_delay_ms, burst })
 }
 
 fn run_height(c: &HeightCase) -> CaseReport {
@@ -597,7 +613,8 @@ fn run_height(c: &HeightCase) -> CaseReport {
         rep.inconclusive = true;
         return rep;
     }
-    let max_told = c.blocks.iter().cloned().chain([c.start]).max().unwrap();
+    let max_before_burst = c.blocks.iter().cloned().chain([c.start]).max().unwrap();
+    let max_told = max_before_burst + c.burst as u32;
     let cfg = Cfg { mpp_timeout_s: 1, ..Cfg::default() };
     let pay = PaymentSpec { preimage: 0x33, invoice_amount: Some(1_000_000), tlv_amount: 1_000_000, hints: Hints::None, explicit_payee: false, recipient_ok: false, drain_parts: 0 };
     let need = needed_total(&cfg, 1_000_000);
@@ -619,9 +636,17 @@ fn run_height(c: &HeightCase) -> CaseReport {
         for b in &c.blocks {
             p.send_block(*b).await;
         }
+        if c.burst > 0 {
+            let mut bytes = String::new();
+            for i in 1..=c.burst as u32 {
+                bytes += &json!({"jsonrpc":"2.0","method":"block_added","params":{"block_added":{"hash":"00".repeat(32),"height": max_before_burst + i}}}).to_string();
+                bytes += "\n\n";
+            }
+            p.write_stdin(bytes.as_bytes()).await;
+        }
         // notifications are handled by spawned tasks: give them time before the HTLC
-        if !c.blocks.is_empty() {
-            tokio::time::sleep(Duration::from_millis(150)).await;
+        if !c.blocks.is_empty() || c.burst > 0 {
+            tokio::time::sleep(Duration::from_millis(150 + c.burst as u64 * 2)).await;
         }
         p.send_htlc(json!("x"), &scn.render(0)).await;
         if p.wait_reply(&json!("x"), 10_000).await.is_none() {
@@ -641,7 +666,7 @@ fn run_height(c: &HeightCase) -> CaseReport {
                     rep.violations.push(Violation::new(
                         "C20",
                         "binary_does_not_use_max_height_told",
-                        format!("startup height {}, block_added {:?}: pay maxdelay {got:?}, expected {want} (expiry {expiry} - max height {max_told} - 34, capped at 1008)", c.start, c.blocks),
+                        format!("startup height {}, block_added {:?} then a burst of {} consecutive blocks in one write: pay maxdelay {got:?}, expected {want} (expiry {expiry} - max height {max_told} - 34, capped at 1008)", c.start, c.blocks, c.burst),
                     ));
                 }
             }
@@ -654,8 +679,11 @@ fn run_height(c: &HeightCase) -> CaseReport {
         rep.classes.push(format!("infrastructure: {}", e.chars().take(80).collect::<String>()));
     }
     let stale = c.blocks.windows(2).any(|w| w[1] <= w[0]) || c.blocks.iter().any(|b| *b <= c.start);
-    rep.nontrivial = stale;
-    rep.fingerprint = fp_of(&(c.start, &c.blocks, c.expiry_above));
+    rep.nontrivial = stale || c.burst > 1;
+    rep.fingerprint = fp_of(&(c.start, &c.blocks, c.expiry_above, c.burst));
+    if c.burst >= 40 {
+        rep.classes.push("e2e_block_added_burst_40_or_more".into());
+    }
     rep.classes.push("e2e_block_added_wiring".into());
     if rep.nontrivial {
         rep.sample = Some(serde_json::to_value(c).unwrap());
@@ -745,6 +773,114 @@ fn run_slow_pay(c: &SlowPay) -> CaseReport {
     rep
 }
 
+// ------------------------------------------------------------------ C14: another hash while a payment is in flight, through the binary
+
+#[derive(Clone, Debug, Serialize, Deserialize)]
+pub struct IsolationCase {
+    /// requests of other payment hashes sent while the pay command of the first hash is running
+    pub others: u8,
+    pub trace_log: bool,
+}
+
+/// The node leaves `pay` for hash A unanswered. Plain forwards of other hashes sent meanwhile must be answered
+/// before A is. Decided by ORDER, not by a time limit: a missing reply counts only if the plugin process is idle.
+fn run_isolation(c: &IsolationCase) -> CaseReport {
+    let mut rep = CaseReport::default();
+    if bin_missing() {
+        rep.inconclusive = true;
+        return rep;
+    }
+    let cfg = Cfg { mpp_timeout_s: 1, ..Cfg::default() };
+    let pay = PaymentSpec { preimage: 0x36, invoice_amount: Some(1_000_000), tlv_amount: 1_000_000, hints: Hints::None, explicit_payee: false, recipient_ok: true, drain_parts: 1 };
+    let need = needed_total(&cfg, 1_000_000);
+    let h = HtlcSpec { pay: 0, hash_of: None, amount_msat: need, total_msat: Some(need), forward_msat: Some(need), cltv_expiry: 1000 + 1200, cltv_rel: 1100, forward: false, meta: Meta::Normal, extra: vec![], raw_payload: None };
+    let scn = crate::props::c13::blank(vec![pay.clone()], vec![h], 1);
+    let r = rt();
+    let res: Result<(), String> = r.block_on(async {
+        let started = Proc::start(default_options(), if c.trace_log { Some("trace") } else { None }, PayMode::Complete, 1000, &[pay.preimage_bytes()]).await?;
+        let mut p = match started {
+            Started::Running(p) => p,
+            Started::Refused { stderr, .. } => return Err(format!("refused: {stderr}")),
+        };
+        p.shared.lock().unwrap().hold_pays = true;
+        p.send_htlc(json!("A"), &scn.render(0)).await;
+        let t0 = std::time::Instant::now();
+        while t0.elapsed() < Duration::from_secs(10) && !p.shared.lock().unwrap().pending.iter().any(|r| r.method == "pay") {
+            tokio::time::sleep(Duration::from_millis(20)).await;
+        }
+        if !p.shared.lock().unwrap().pending.iter().any(|r| r.method == "pay") {
+            rep.inconclusive = true;
+            p.stop().await;
+            return Ok(());
+        }
+        for i in 0..c.others {
+            let fwd = json!({"onion": {"payload": "", "short_channel_id": "1x1x1", "forward_msat": 1000 + i as u64}, "htlc": {"short_channel_id": "2x2x2", "id": 100 + i as u64, "amount_msat": 2000, "cltv_expiry": 1500, "cltv_expiry_relative": 500, "payment_hash": format!("{:02x}", 0xb0 + i).repeat(32)}});
+            p.send_htlc(json!(format!("B{i}")), &fwd).await;
+        }
+        let mut missing = vec![];
+        for i in 0..c.others {
+            if p.wait_reply(&json!(format!("B{i}")), 10_000).await.is_none() {
+                missing.push(i);
+            }
+        }
+        if !missing.is_empty() {
+            let a_answered = p.reply(&json!("A")).is_some();
+            let idle = match p.child.id() {
+                Some(pid) if matches!(p.child.try_wait(), Ok(None)) => {
+                    let a = cpu_ticks(pid);
+                    tokio::time::sleep(Duration::from_secs(3)).await;
+                    a.is_some() && a == cpu_ticks(pid)
+                }
+                _ => false,
+            };
+            let still: Vec<u8> = missing.iter().cloned().filter(|i| p.reply(&json!(format!("B{i}"))).is_none()).collect();
+            if let Some(m) = p.panicked() {
+                rep.violations.push(Violation::new("C06", "panic_in_binary", m));
+            } else if idle && !still.is_empty() && !a_answered {
+                rep.violations.push(Violation::new(
+                    "C14",
+                    "reply_for_other_hash_withheld_while_payment_in_flight",
+                    format!("{} plain forwards of other payment hashes got no reply while the pay command of an earlier HTLC is running at the node; the plugin process is idle (no CPU time in 3 s), so the replies are not late but withheld", still.len()),
+                ));
+            } else {
+                rep.inconclusive = true;
+            }
+        }
+        p.shared.lock().unwrap().hold_pays = false;
+        let _ = p.wait_reply(&json!("A"), 8000).await;
+        if rep.violations.iter().any(|v| v.prop == "C14") {
+            // corroboration: do the withheld replies appear once A is answered?
+            let after: usize = (0..c.others).filter(|i| p.reply(&json!(format!("B{i}"))).is_some()).count();
+            rep.classes.push(format!("withheld_replies_released_after_first_hash_answered:{}", after == c.others as usize));
+        }
+        p.stop().await;
+        Ok(())
+    });
+    if let Err(e) = res {
+        rep.inconclusive = true;
+        rep.classes.push(format!("infrastructure: {}", e.chars().take(80).collect::<String>()));
+    }
+    rep.nontrivial = !rep.inconclusive;
+    rep.fingerprint = fp_of(&(c.others, c.trace_log));
+    rep.classes.push("e2e_other_hash_while_pay_in_flight".into());
+    rep.sample = Some(serde_json::to_value(c).unwrap());
+    rep
+}
+
+pub fn replay_isolation(c: Value) -> Option<CaseReport> {
+    Some(run_isolation(&serde_json::from_value(c).ok()?))
+}
+
+pub fn c14_e2e(s: &mut Session) {
+    e2e_workers_note(s);
+    booked(s, |s| {
+        s.assume("E2E isolation phase: a missing reply for another hash is a violation only if the plugin process is idle (no CPU time used in 3 s) while the first hash's pay command is still running; otherwise inconclusive");
+        s.regress::<IsolationCase, _>("e2e-isolation", run_isolation);
+        let cases = vec![IsolationCase { others: 1, trace_log: false }, IsolationCase { others: 5, trace_log: true }, IsolationCase { others: 40, trace_log: false }];
+        s.enumerate("e2e-other-hash-while-pay-in-flight", "e2e-isolation", cases, run_isolation);
+    });
+}
+
 pub fn c02_e2e(s: &mut Session) {
     e2e_workers_note(s);
     booked(s, |s| {
@@ -763,11 +899,135 @@ pub fn replay_slow_pay(c: Value) -> Option<CaseReport> {
     Some(run_slow_pay(&serde_json::from_value(c).ok()?))
 }
 
+// ------------------------------------------------------------------ C20: the periodic poll through the binary
+
+#[derive(Clone, Debug, Serialize, Deserialize)]
+pub struct PollCase {
+    pub start: u32,
+    /// the node's height rises by this much without any block_added notification ...
+    pub raise: u32,
+    /// ... this many ms after the plugin's init
+    pub raise_after_ms: u64,
+    pub expiry_above: u32,
+}
+
+/// Notifications are lost: the binary must query the node again within one poll interval (60 s, real time) and
+/// use what it learns. Upper bounds in real time are only asserted when the process is demonstrably idle.
+fn run_poll(c: &PollCase) -> CaseReport {
+    let mut rep = CaseReport::default();
+    if bin_missing() {
+        rep.inconclusive = true;
+        return rep;
+    }
+    let new_h = c.start + c.raise;
+    let cfg = Cfg { mpp_timeout_s: 1, ..Cfg::default() };
+    let pay = PaymentSpec { preimage: 0x34, invoice_amount: Some(1_000_000), tlv_amount: 1_000_000, hints: Hints::None, explicit_payee: false, recipient_ok: false, drain_parts: 0 };
+    let need = needed_total(&cfg, 1_000_000);
+    let expiry = new_h + c.expiry_above;
+    let h = HtlcSpec { pay: 0, hash_of: None, amount_msat: need, total_msat: Some(need), forward_msat: Some(need), cltv_expiry: expiry, cltv_rel: 1100, forward: false, meta: Meta::Normal, extra: vec![], raw_payload: None };
+    let scn = crate::props::c13::blank(vec![pay], vec![h], 1);
+    let r = rt();
+    let res: Result<(), String> = r.block_on(async {
+        let mut p = match Proc::start(default_options(), None, PayMode::FailFast, c.start, &[]).await? {
+            Started::Running(p) => p,
+            Started::Refused { stderr, .. } => return Err(format!("refused: {stderr}")),
+        };
+        let t0 = std::time::Instant::now();
+        tokio::time::sleep(Duration::from_millis(c.raise_after_ms)).await;
+        let polls_before = p.getinfo_count();
+        p.shared.lock().unwrap().node.height = new_h;
+        let mut polled = false;
+        while t0.elapsed() < Duration::from_secs(75) {
+            if p.getinfo_count() > polls_before {
+                polled = true;
+                break;
+            }
+            if matches!(p.child.try_wait(), Ok(Some(_))) {
+                break;
+            }
+            tokio::time::sleep(Duration::from_millis(200)).await;
+        }
+        if !polled {
+            let exited = matches!(p.child.try_wait(), Ok(Some(_)));
+            let idle = match p.child.id() {
+                Some(pid) if !exited => {
+                    let a = cpu_ticks(pid);
+                    tokio::time::sleep(Duration::from_secs(3)).await;
+                    a.is_some() && a == cpu_ticks(pid)
+                }
+                _ => false,
+            };
+            let again = p.getinfo_count() > polls_before;
+            if let Some(m) = p.panicked() {
+                rep.violations.push(Violation::new("C20", "panic_in_binary", m));
+            } else if idle && !again {
+                rep.violations.push(Violation::new(
+                    "C20",
+                    "binary_never_polls_again",
+                    format!("the node's height rose from {} to {new_h} without a notification {} ms after init; {:.0} s after init the plugin has not queried the node again (poll interval 60 s) and its process is idle (no CPU time used in 3 s)", c.start, c.raise_after_ms, t0.elapsed().as_secs_f64()),
+                ));
+            } else {
+                rep.inconclusive = true;
+            }
+            p.stop().await;
+            return Ok(());
+        }
+        // the reply has to travel back and be applied
+        tokio::time::sleep(Duration::from_millis(500)).await;
+        p.send_htlc(json!("x"), &scn.render(0)).await;
+        if p.wait_reply(&json!("x"), 10_000).await.is_none() {
+            if let Some(m) = p.panicked() {
+                rep.violations.push(Violation::new("C20", "panic_in_binary", m));
+            } else {
+                rep.inconclusive = true;
+            }
+        }
+        match p.rpcs().into_iter().find(|r| r.0 == "pay") {
+            None => rep.inconclusive = true,
+            Some((_, params)) => {
+                let want = (expiry.saturating_sub(new_h).saturating_sub(34)).min(1008) as u64;
+                let got = params["maxdelay"].as_u64();
+                if got != Some(want) {
+                    rep.violations.push(Violation::new(
+                        "C20",
+                        "binary_does_not_use_polled_height",
+                        format!("startup height {}, node at {new_h} when polled: pay maxdelay {got:?}, expected {want} (expiry {expiry} - {new_h} - 34, capped at 1008)", c.start),
+                    ));
+                }
+            }
+        }
+        p.stop().await;
+        Ok(())
+    });
+    if let Err(e) = res {
+        rep.inconclusive = true;
+        rep.classes.push(format!("infrastructure: {}", e.chars().take(80).collect::<String>()));
+    }
+    rep.nontrivial = !rep.inconclusive;
+    rep.fingerprint = fp_of(&(c.start, c.raise, c.raise_after_ms, c.expiry_above));
+    rep.classes.push("e2e_poll_after_lost_notifications".into());
+    rep.sample = Some(serde_json::to_value(c).unwrap());
+    rep
+}
+
+pub fn replay_poll(c: Value) -> Option<CaseReport> {
+    Some(run_poll(&serde_json::from_value(c).ok()?))
+}
+
 pub fn c20_e2e(s: &mut Session) {
     e2e_workers_note(s);
     booked(s, |s| {
         s.regress::<HeightCase, _>("e2e-height", run_height);
         s.search("e2e-binary-block-added", "e2e-height", 6, height_case, run_height);
+        s.enumerate("e2e-binary-block-added-burst", "e2e-height", vec![HeightCase { start: 500, blocks: vec![], expiry_above: 900, getinfo_delay_ms: 0, burst: 100 }, HeightCase { start: 2000, blocks: vec![2003], expiry_above: 500, getinfo_delay_ms: 0, burst: 250 }], run_height);
+        s.assume("E2E poll phase: real time; 'the binary never polls again' is reported only if no getinfo arrived within 75 s of init (interval 60 s) AND the process used no CPU time for 3 s (idle, not starved); otherwise inconclusive");
+        // two processes side by side (about 62 s of wall clock, mostly idle waiting)
+        let mut cases = vec![PollCase { start: 1000, raise: 7, raise_after_ms: 2_000, expiry_above: 700 }, PollCase { start: 4000, raise: 300, raise_after_ms: 30_000, expiry_above: 500 }];
+        if s.tier == Tier::Thorough {
+            cases.push(PollCase { start: 120, raise: 1, raise_after_ms: 58_000, expiry_above: 45 });
+            cases.push(PollCase { start: 777, raise: 2000, raise_after_ms: 0, expiry_above: 2000 });
+        }
+        s.enumerate("e2e-binary-poll", "e2e-poll", cases, run_poll);
     });
 }
 
